@@ -659,7 +659,10 @@ PROPS["C11"] = {
              "analysed initialisers and enum initialisers. The extracted, proved decision procedure judges four clauses per "
              "pair: emitted exports are a subset of the original's; equal at entrypoints; every retained item matches its "
              "original (kind, name, export form, type parameters, heritage, written annotations by text, members, modulo the "
-             "documented normalisations); no intent-dropped name is declared. The number of declared names is compared as a "
+             "documented normalisations); no intent-dropped name is declared - at the top level of the module, or nested: 18% of "
+             "the generated packages have a private namespace nest reached from the public API only through a qualified path of "
+             "three to five segments, and every sibling declaration on the way (exported inside its namespace or not, dead "
+             "sibling namespaces) must be absent from the output (declares_path). The number of declared names is compared as a "
              "wire check. non-trivial = corpus/seed pair, or generated package with both retained public names and "
              "intent-dropped names. quick 12000 generated packages; thorough 300000"),
     "assumptions": [
